@@ -147,8 +147,18 @@ def aged_signal(rng, cls, values, dt, **kw):
             _touch(s)
         sib = copy.copy(s)
         try:
-            sib.reset_values(np.array([rng.uniform(-3, 3) for _ in range(n)]))
+            other = np.array([rng.uniform(-3, 3) for _ in range(n)])
+            # round 9 (hx_r9a): the sibling's record is of the same size, MUCH quieter or MUCH louder than this object's (peaks on either side of
+            # any gate / early exit), in turn (a per-process counter: the random stream of every caller is unchanged)
+            aged_signal._fork_no = getattr(aged_signal, '_fork_no', -1) + 1
+            other = other * (1e-3, 1e3, 1.0)[aged_signal._fork_no % 3]
+            sib.reset_values(other)
             _touch(sib)
+            for nm in ('pga', 'pgv', 'pgd'):            # the sibling's peaks are read (and cached) last, before the original is handed out
+                try:
+                    getattr(sib, nm)
+                except Exception:
+                    pass
         except Exception:
             pass
         return kind, s
